@@ -49,12 +49,14 @@ CLAIM = dict(
               "materialisation against the real store",
     design="7/C17")
 
-MODULES = ["Klong.Props.C17"]
+MODULES = ["Klong.Props.C17", "Klong.Props.C17Gen"]
 THEOREMS = [
     "Klong.C17.crash_safety",
     "Klong.C17.crash_safety_core",
     "Klong.C17.completed_set_is_durable",
     "Klong.C17.WF_prefix",
+    "Klong.C17.fixed_write_path_wf",
+    "Klong.C17.kvs_crash_safe",
     "Klong.C17.overwrite_can_lose_old_value_of_same_key",
     "Klong.C17.pinned_small_value_not_durable",
     "Klong.C17.pinned_new_key_can_vanish_strict",
@@ -811,10 +813,16 @@ SK_LEAN = {"scan": ".scanNew", "makedirs": ".makedirs", "open": ".openWb", "writ
 def kernel_obligations(ctx, runs, sk, flag):
     """(b): per-run decidable obligations, checked by the Lean kernel"""
     from klongpy.db.helpers import serialize_obj
-    lines = ["import Klong.Props.C17", "open Klong.C17", "set_option maxRecDepth 100000", ""]
+    lines = ["import Klong.Props.C17Gen", "open Klong.C17", "set_option maxRecDepth 100000", ""]
     names = {}
     skl = "[" + ", ".join(SK_LEAN[t] for t in sk) + "]"
     fl = "true" if flag else "false"
+    # the extracted skeleton is the one `fixed_write_path_wf` / `kvs_crash_safe` are proved for
+    names[len(lines) + 1] = "extracted skeleton of _write_file = skFixed and use_fsync = true (scope of kvs_crash_safe)"
+    lines.append(f"example : (({skl} : List Sk), {fl}) = (skFixed, true) := by decide")
+    allkeys = sorted({k for r in runs for k, _ in r["sets"]})
+    names[len(lines) + 1] = "ValidKeys (keys used by this run) (hypothesis of kvs_crash_safe)"
+    lines.append(f"example : ValidKeys [{', '.join(lpath(k) for k in allkeys)}] := by decide")
     for i, r in enumerate(runs):
         lops = [lean_op(o) for o in r["ops"]]
         sets = "[" + ", ".join(f"({lpath(k)}, {lean_bytes(serialize_obj(v).hex())})" for k, v in r["sets"]) + "]"
